@@ -140,10 +140,13 @@ fn tx_join_step(ri: usize) {
     check_tx(&mut pre, ri, true, &tx, &w);
     if rt::is_fixed(rt::region_ut(ri)) {
         // join requests go out on a join channel with the data rate its class mandates
+        // RP002: US915 joins with DR0 (SF10/125 kHz) / DR4 (SF8/500 kHz), AU915 with DR2 (SF10/125 kHz)
+        // / DR6 (SF8/500 kHz): in both regions SF10 on the 125 kHz channels, SF8 on the 500 kHz ones
         let bw500 = tx.rf.bb.bw == lora_modulation::Bandwidth::_500KHz;
-        let want = if bw500 { 4u8 } else { 0u8 };
-        let d = mac.region.get_datarate(want).unwrap();
-        crate::vcheck!(d.spreading_factor == tx.rf.bb.sf && d.bandwidth == tx.rf.bb.bw, "C09: fixed-plan join channel must use DR0 (125 kHz) or DR4 (500 kHz)");
+        let want_sf = if bw500 { lora_modulation::SpreadingFactor::_8 } else { lora_modulation::SpreadingFactor::_10 };
+        crate::vcheck!(tx.rf.bb.sf == want_sf, "C09: fixed-plan join request must use SF10 on a 125 kHz channel (US915 DR0, AU915 DR2) and SF8 on a 500 kHz channel (DR4 / DR6)");
+        let is500 = rt::join_channel_is_500(&mut pre.region, tx.rf.frequency);
+        crate::vcheck!(is500 == bw500, "C09: the join data rate's bandwidth must match the join channel (channels 64..71 are 500 kHz)");
     }
 }
 
@@ -175,33 +178,100 @@ macro_rules! h { ($name:ident, $body:expr, $unw:expr) => {
     fn $name() { $body }
 }; }
 
-//@h id=tx_data_legal_r0 props=C09,C10 tier=quick build=dev-eu868 cost=60 timeout=1200
+//@h id=tx_data_legal_r0 props=C09,C10 tier=quick build=dev-eu868 tbuilds=dev-eu433,dev-in865,dev-as923 cost=60 timeout=1200
 //@bounds EU868; arbitrary plan (13 optional channels, masks, DL remaps) under I-dyn, arbitrary configuration under I-dr, board power 0..=30 dBm, antenna gain -30..=30 dBi; every RNG stream of at most 3 draws (later draws repeat the same loop body)
 //@encodes Mac::send (post-processing), region::Configuration::create_tx_config, DynamicChannelPlan::select_tx_channel, get_random_in_range, TxConfig::adjust_power, Mac::rx_windows
 //@assumes Session::prepare_buffer stubbed (frame building is checked by prepare_* harnesses)
 h!(tx_data_legal_r0, tx_data_step(0), 74);
-//@h id=tx_join_legal_r0 props=C09,C10 tier=quick build=dev-eu868 cost=60 timeout=1200
+//@h id=tx_join_legal_r0 props=C09,C10 tier=quick build=dev-eu868 tbuilds=dev-eu433,dev-in865,dev-as923 cost=60 timeout=1200
 //@bounds EU868 join request; as above, RNG streams of at most 4 draws
 //@encodes Mac::join_otaa, Otaa::prepare_buffer, select_tx_channel (Join)
 h!(tx_join_legal_r0, tx_join_step(0), 74);
-//@h id=tx_select_terminates_r0 props=C04,C09 tier=quick build=dev-eu868 cost=120 timeout=1500
+//@h id=tx_select_terminates_r0 props=C04,C09 tier=quick build=dev-eu868 tbuilds=dev-eu433,dev-in865,dev-as923 cost=120 timeout=1500
 //@bounds EU868 data frames; arbitrary plan under I-dyn; RNG = counter from an arbitrary start (enumerates every residue of the 3/4/5-bit masks): success within 33 draws, hence no state under I-dyn in which no draw can succeed
 //@encodes DynamicChannelPlan::select_tx_channel (Data), get_random_in_range
 h!(tx_select_terminates_r0, select_terminates(0, false, 33), 74);
-//@h id=tx_join_terminates_r0 props=C04,C09 tier=quick build=dev-eu868 cost=30 timeout=900
+//@h id=tx_join_terminates_r0 props=C04,C09 tier=quick build=dev-eu868 tbuilds=dev-eu433,dev-in865,dev-as923 cost=30 timeout=900
 //@bounds EU868 join: the 2-bit rejection loop succeeds within 5 draws of an enumerating RNG
 h!(tx_join_terminates_r0, select_terminates(0, true, 5), 74);
 
-//@h id=tx_data_legal_us props=C09,C10 tier=quick build=dev-us915 cost=90 timeout=1500
+//@h id=tx_data_legal_us props=C09,C10 tier=quick build=dev-us915 tbuilds=dev-au915 cost=90 timeout=1500
 //@bounds US915; arbitrary 72-bit mask and reachable join bookkeeping (bias, retries, round-robin state), arbitrary configuration under I-dr, board power 0..=30, gain -30..=30; RNG streams of at most 3 draws
 //@encodes FixedChannelPlan::select_tx_channel, JoinChannels::{has_bias_and_not_exhausted, first_data_channel, get_next_channel}, AvailableChannels::get_next
 h!(tx_data_legal_us, tx_data_step(0), 84);
-//@h id=tx_join_legal_us props=C09,C10 tier=quick build=dev-us915 cost=90 timeout=1500
+//@h id=tx_join_legal_us props=C09,C10 tier=quick build=dev-us915 tbuilds=dev-au915 cost=90 timeout=1500
 //@bounds US915 join request; reachable join bookkeeping; RNG streams of at most 4 draws
 h!(tx_join_legal_us, tx_join_step(0), 84);
-//@h id=tx_select_terminates_us props=C04,C09 tier=quick build=dev-us915 cost=200 timeout=2400
+//@h id=tx_select_terminates_us props=C04,C09 tier=quick build=dev-us915 tbuilds=dev-au915 cost=200 timeout=2400
 //@bounds US915 data frames; arbitrary mask (no invariant on it); enumerating RNG: success within 65 draws
 h!(tx_select_terminates_us, select_terminates(0, false, 65), 84);
-//@h id=tx_join_terminates_us props=C04,C09 tier=quick build=dev-us915 cost=200 timeout=2400
+//@h id=tx_join_terminates_us props=C04,C09 tier=quick build=dev-us915 tbuilds=dev-au915 cost=200 timeout=2400
 //@bounds US915 join; every reachable round-robin state (used offsets x current offset x start bank x visited banks); enumerating RNG: the 3-bit entropy-slice loop succeeds within 9 draws (90 slices)
 h!(tx_join_terminates_us, join_terminates_slices(0, 9), 94);
+
+// ---- regional constant tables against RP002-1.0.3 (one cheap harness per region build) -----------
+/// number of defined TXPower indices (RP002 section 2.x.3 per region)
+fn ref_tx_power_indices(r: region::Region) -> u8 {
+    match r {
+        #[cfg(feature = "region-eu868")]
+        region::Region::EU868 => 8,
+        #[cfg(feature = "region-eu433")]
+        region::Region::EU433 => 6,
+        #[cfg(feature = "region-in865")]
+        region::Region::IN865 => 11,
+        #[cfg(feature = "region-us915")]
+        region::Region::US915 => 15,
+        #[cfg(feature = "region-au915")]
+        region::Region::AU915 => 15,
+        #[allow(unreachable_patterns)]
+        _ => 8, // AS923-1..4
+    }
+}
+fn region_tables(ri: usize) {
+    let r = rt::region_ut(ri);
+    let mut c = region::Configuration::new(r);
+    // the plan's own band check (what NewChannelReq / DlChannelReq / CFList / RXParamSetupReq are
+    // validated with) against the reference band
+    let f: u32 = kani::any();
+    let own = c.frequency_valid(f);
+    assert!(own == rt::freq_in_band(&mut c, f), "C09: the region's frequency check accepts a frequency outside its band (or rejects one inside)");
+    // TXPower table: index i < N gives MaxEIRP - 2 i dB (US915: at most that), others are refused
+    let pw: u8 = kani::any();
+    match c.check_tx_power(pw) {
+        Some(Some(v)) => {
+            assert!(pw < ref_tx_power_indices(r), "C09: TXPower index beyond the region's table must be refused");
+            let want = ref_max_eirp(r) - 2 * pw as i16;
+            assert!(v as i16 <= want, "C09: TXPower index gives more than MaxEIRP - 2*index dB");
+            assert!(rt::is_fixed(r) || v as i16 == want, "C09: TXPower index gives MaxEIRP - 2*index dB");
+        }
+        _ => assert!(pw >= ref_tx_power_indices(r), "C09: a defined TXPower index must be accepted"),
+    }
+    kani::cover!(own, "in-band frequency");
+}
+macro_rules! tables { ($name:ident, $ri:expr) => {
+    #[kani::proof]
+    #[kani::unwind(20)]
+    fn $name() { region_tables($ri) }
+}; }
+//@h id=region_tables_eu868 props=C09 tier=quick build=dev-eu868 cost=5 timeout=600
+//@bounds EU868: every u32 frequency against the RP002 band, every TXPower index 0..=255 against MaxEIRP - 2*index
+//@encodes region::Configuration::{frequency_valid, check_tx_power}, EU868Region::tx_power_adjust, eu868_freq_check
+tables!(region_tables_eu868, 0);
+//@h id=region_tables_eu433 props=C09 tier=quick build=dev-eu433 cost=5 timeout=600
+//@bounds EU433: as region_tables_eu868
+tables!(region_tables_eu433, 0);
+//@h id=region_tables_in865 props=C09 tier=quick build=dev-in865 cost=5 timeout=600
+//@bounds IN865: as region_tables_eu868
+tables!(region_tables_in865, 0);
+//@h id=region_tables_as923_1 props=C09 tier=quick build=dev-as923 cost=5 timeout=600
+//@bounds AS923-1: as region_tables_eu868
+tables!(region_tables_as923_1, 0);
+//@h id=region_tables_as923_4 props=C09 tier=quick build=dev-as923 cost=5 timeout=600
+//@bounds AS923-4 (917..920 MHz): as region_tables_eu868
+tables!(region_tables_as923_4, 3);
+//@h id=region_tables_us915 props=C09 tier=quick build=dev-us915 cost=5 timeout=600
+//@bounds US915: band 902..928 MHz, TXPower 0..=14 at most 30 - 2*index dBm
+tables!(region_tables_us915, 0);
+//@h id=region_tables_au915 props=C09 tier=quick build=dev-au915 cost=5 timeout=600
+//@bounds AU915: band 915..928 MHz, TXPower 0..=14 at most 30 - 2*index dBm
+tables!(region_tables_au915, 0);
